@@ -45,6 +45,7 @@ def gen_cases(ctx):
                 profs[str(k)] = N.rand_profile(rng, base=base)
         yield {"deep": deep, "dup": (i % 3 == 1) and not deep and not hostile,
                "orphan": (i % 2 == 0) and not deep and not hostile and nj >= 6,
+               "conc": not deep and not hostile and nj >= 3,
                "ids": ids, "offsets": {str(k): rng.choice([0, 0, rng.randrange(0, 2000)]) for k in ids},
                "no_children": [k for k in ids if rng.random() < 0.15] if not deep else [],
                "cls": {str(k): rng.choice(["meshnm", "meshnm", "mesh"]) for k in ids},
@@ -125,7 +126,7 @@ def _run(ctx, case, net):
     rel = [k for i, k in enumerate(order) if i % 3 == 0][:3]
     # dynamic barriers: phase 2 starts when every joiner has returned from renew_address();
     # inside phases 2 and 3 the nodes act strictly one at a time ("turn")
-    st = {"joined": 0, "turn2": 0, "turn3": 0, "done": 0}
+    st = {"joined": 0, "turn2": 0, "turn3": 0, "done": 0, "conc_done": 0}
     end_cap = t0 + int((2.0 + T + 2.0) * 1e9) + len(order) * 4000 * W.MS + len(rel) * int((2 * T + 8.0) * 1e9) + int((2 * T + 12.0) * 1e9)
     applog = {k: joiners[k].applog for k in ids}
     world.horizon = end_cap + 10 * 1000 * W.MS
@@ -189,7 +190,27 @@ def _run(ctx, case, net):
         r["addr_after_join"] = o.node_address
         st["joined"] += 1
         me = order.index(k)
-        pump_while(nn, lambda: st["joined"] < len(ids) or st["turn2"] != me)
+        pump_while(nn, lambda: st["joined"] < len(ids))
+        if case.get("conc"):
+            # ---- every connected node asks the master about other IDs AT THE SAME TIME (relays are
+            # asking while they pass their children's lookups along); an answer is the mapping or -1
+            if r["join"] not in (None, "no return"):
+                pump_until(nn, wn.t + (k % 7) * 300 * W.US)
+                tab = {a: b for a, b in master.obj.dhcp_dict.items() if a < 1000}
+                others = [j for j in ids if j != k and res[j].get("join") not in (None, "no return")]
+                r["conc"] = []
+                for t_ in range(4):
+                    if others:
+                        tgt = others[(me * 3 + t_) % len(others)]
+                        try:
+                            v = net.call(nn, "lookup_address", o.lookup_address, tgt, deadline_ms=2000)
+                        except W.VirtualDeadline:
+                            v = "no return"
+                        r["conc"].append((tgt, v, tab.get(tgt)))
+            st["conc_done"] += 1
+            pump_while(nn, lambda: st["conc_done"] < len(ids))
+            pump_until(nn, wn.t + 20 * W.MS)
+        pump_while(nn, lambda: st["turn2"] != me)
         pump_until(nn, wn.t + 10 * W.MS)
         wait_quiet(nn)
         if r["join"] not in (None, "no return"):
@@ -457,6 +478,23 @@ def _run(ctx, case, net):
             ctx.violation("check_connection/false-when-connected", "ID %d at %s: check_connection() = %r"
                           % (k, oct(r["addr_after_join"]), r.get("cc")), case)
             return
+        for ci_, (tgt, v, exp) in enumerate(r.get("conc", [])):
+            ctx.clause("concurrent_lookups")
+            if v != exp and v != -1:
+                # mechanism: the answer to one of this node's EARLIER questions that had timed out
+                # (-1) arrives late and is taken for the answer to the current one - replies carry
+                # nothing that ties them to a question
+                late = any(v0 == -1 and exp0 == v for (_, v0, exp0) in r["conc"][:ci_])
+                ctx.violation("lookup/concurrent" + ("/late-answer-to-an-earlier-question" if late else ""),
+                              "ID %d: lookup_address(%d) while other nodes were asking too "
+                              "returned %r, the master's table says %r (-1 = no answer would be acceptable); its "
+                              "earlier questions in this phase: %r"
+                              % (k, tgt, v, exp, r["conc"][:ci_]), case)
+                if late:
+                    continue
+                return
+            if v == -1:
+                ctx.count("concurrent_lookups_unanswered")
         if "send_self" in r:
             ctx.clause("mesh_send_arrives")
             pl, ret = r["send_self"]
